@@ -266,6 +266,52 @@ def handle (z : St) (args : List String) : Option (St × Proto.Out) :=
         | _ => "rolled-back-edge-in-adjacency"
       | [] => "neighbours-missing"
     pure (z, mk' (showPairs m) (showPairs s) sig)
+  | ["in", k, n] => do
+    let k ← k.toNat?
+    let n ← n.toNat?
+    let m := z.w.incoming k n
+    let v := z.view k
+    let s := ((v.edges.filter (fun kv => kv.2.dst == n)).filter (fun kv => (aget v.nodes kv.2.src).isSome)).map (fun kv => (kv.2.src, kv.1))
+    let diff := (m.filter (fun p => !s.contains p)) ++ (s.filter (fun p => !m.contains p))
+    let sig := match diff.find? (fun p => z.touched.contains (2 * p.2 + 1) || z.touched.contains (2 * p.1) || z.touched.contains (2 * n)) with
+      | some p => inPlaceSig z (if z.touched.contains (2 * p.2 + 1) then 2 * p.2 + 1 else if z.touched.contains (2 * p.1) then 2 * p.1 else 2 * n)
+      | none => "incoming-neighbours-differ"
+    pure (z, mk' (showPairs m) (showPairs s) sig)
+  -- one-hop pattern reads: `qexp k n o|i <type|->`
+  | ["qexp", k, n, dir, ty] => do
+    let k ← k.toNat?
+    let n ← n.toNat?
+    let out := dir == "o"
+    let ty := ty.toNat?
+    let m := z.w.expandFrom k n out ty
+    let v := z.view k
+    let s := if (aget v.nodes n).isNone then [] else
+      ((v.edges.filter (fun kv => (if out then kv.2.src else kv.2.dst) == n && (match ty with | some t => kv.2.ty == t | none => true))).filter
+        (fun kv => (aget v.nodes (if out then kv.2.dst else kv.2.src)).isSome)).map (fun kv => ((if out then kv.2.dst else kv.2.src), kv.1))
+    let diff := (m.filter (fun p => !s.contains p)) ++ (s.filter (fun p => !m.contains p))
+    let sig := match diff.find? (fun p => z.touched.contains (2 * p.2 + 1) || z.touched.contains (2 * p.1) || z.touched.contains (2 * n)) with
+      | some p => inPlaceSig z (if z.touched.contains (2 * p.2 + 1) then 2 * p.2 + 1 else if z.touched.contains (2 * p.1) then 2 * p.1 else 2 * n)
+      | none => "pattern-read-differs"
+    pure (z, mk' (showPairs m) (showPairs s) sig)
+  -- `MATCH p = shortestPath((a:Lx)-[*]->(b:Ly)) RETURN length(p)`: sorted lengths, N = no path
+  | ["qsp", k, x, y] => do
+    let k ← k.toNat?
+    let x ← x.toNat?
+    let y ← y.toNat?
+    let showLens (l : List (Option Nat)) : String :=
+      let nums := sortNat (l.filterMap id)
+      let nulls := (l.filter Option.isNone).length
+      let parts := nums.map toString ++ List.replicate nulls "N"
+      if parts.isEmpty then "norows" else joinWith "," parts
+    let m := z.w.shortestPaths k x y
+    let v := z.view k
+    let succ := fun n => ((v.edges.filter (fun kv => kv.2.src == n && (aget v.nodes kv.2.dst).isSome)).map (fun kv => kv.2.dst))
+    let withL := fun l => (v.nodes.filter (fun kv => kv.2.1.contains l)).map (·.1)
+    let s := (withL x).flatMap (fun a => (withL y).map (fun b => Sess.bfsLen succ b (v.nodes.length + 1) [a] [a] 0))
+    let sig := if z.touched.isEmpty then "shortest-path-differs"
+      else if z.touched.any (fun key => z.abortedTouched.contains key) then "rolled-back-change-persists"
+      else "in-place-change-outside-transaction"
+    pure (z, mk' (showLens m) (showLens s) sig)
   | ["scanl", k, l] => do
     let k ← k.toNat?
     let l ← l.toNat?
@@ -277,6 +323,27 @@ def handle (z : St) (args : List String) : Option (St × Proto.Out) :=
     let m := z.w.scanAll k
     let s := (z.view k).nodes.map (·.1)
     pure (z, mk' (showIds m) (showIds s) (sigIds z k m s))
+  -- the raw adjacency indexes, unfiltered; the specification constrains them when no transaction
+  -- is open: exactly the committed edges
+  | ["adj", n] => do
+    let n ← n.toNat?
+    let showL (l : List (Nat × Nat)) : String := joinWith "," ((sortPairs l).map (fun p => s!"{p.1}.{p.2}"))
+    let render (outOf inOf : Nat → List (Nat × Nat)) : String :=
+      let parts := (List.range n).filterMap (fun id =>
+        let o := outOf id
+        let i := inOf id
+        if o.isEmpty && i.isEmpty then none else some s!"{id}>{showL o}<{showL i}")
+      if parts.isEmpty then "none" else joinWith ";" parts
+    let m := render z.w.store.outEdges z.w.store.inEdges
+    let anyOpen := z.txs.any (fun kv => kv.2.isSome)
+    let ce := z.committed.edges
+    let s := if anyOpen then "-" else
+      render (fun id => (ce.filter (fun kv => kv.2.src == id)).map (fun kv => (kv.2.dst, kv.1)))
+             (fun id => (ce.filter (fun kv => kv.2.dst == id)).map (fun kv => (kv.2.src, kv.1)))
+    let sig := if z.touched.isEmpty then "adjacency-differs"
+      else if z.touched.any (fun key => z.abortedTouched.contains key) then "rolled-back-change-persists"
+      else "in-place-change-outside-transaction"
+    pure (z, { model := m, spec := s, sig := if s == "-" || m == s then "-" else sig })
   | ["count"] =>
     let m := z.w.store.nodeCount
     let s := z.committed.nodes.length
